@@ -214,6 +214,13 @@ pub fn check_case(case: &MapCase, st: &mut Stats) -> Check {
         }
         check_desc(&rs, &lookup, d, i < 2, st)?;
     }
+    // strings beyond the JVM's own limits (256+ dimensions / parameters): agreement and no panic
+    if case.key % 8 == 0 {
+        for s in super::c13::limit_sigs() {
+            agree(&rs, &s, st)?;
+        }
+        st.class("signature strings with >= 255 array dimensions / parameters");
+    }
     // arbitrary unicode strings: agreement and no panic
     for s in sample_n(&prop_oneof!["\\PC{0,16}".boxed(), "[()\\[LIVJ;/éa漢]{0,14}".boxed()], case.key ^ 0x16c, 24) {
         agree(&rs, &s, st)?;
